@@ -1,4 +1,5 @@
 import OmplModel.Model.SpaceDistX
+import OmplModel.Model.SpaceDistCar
 import OmplModel.Driver.SpaceIO
 /-!
 Line-protocol driver of the C06 model.
@@ -20,6 +21,33 @@ open OmplModel OmplModel.Driver OmplModel.SpaceDist
 
 structure St where
   sp : Option (SpaceX Float)
+  car : Option (CarSpace Float) := none
+
+/-- `dubins <rho> <sym> <lo>*2 <hi>*2 | reedsshepp <rho> <lo>*2 <hi>*2 | owen|vana|vanaowen <rho> <maxPitch> <lo>*3 <hi>*3` -/
+partial def pCar : P (CarSpace Float)
+  | "cforest" :: r => pCar r          -- CForestStateSpaceWrapper forwards everything (claims included)
+  | "dubins" :: r => do
+    let (rho, r) ← pFloat r
+    let (sym, r) ← pNat r
+    let (lo, r) ← pFloats 2 r
+    let (hi, r) ← pFloats 2 r
+    pure (.dubins rho (sym != 0) lo hi, r)
+  | "reedsshepp" :: r => do
+    let (rho, r) ← pFloat r
+    let (lo, r) ← pFloats 2 r
+    let (hi, r) ← pFloats 2 r
+    pure (.reedsshepp rho lo hi, r)
+  | k :: r =>
+    if k == "owen" || k == "vana" || k == "vanaowen" then do
+      let (rho, r) ← pFloat r
+      let (p, r) ← pFloat r
+      let (lo, r) ← pFloats 3 r
+      let (hi, r) ← pFloats 3 r
+      if k == "owen" then pure (.owen rho p (Float.tan p) lo hi, r)
+      else if k == "vana" then pure (.vana rho p lo hi, r)
+      else pure (.vanaowen rho p lo hi, r)
+    else none
+  | [] => none
 
 partial def pSpaceX : P (SpaceX Float)
   | "empty" :: r => some (.empty, r)
@@ -36,11 +64,17 @@ partial def pSpaceX : P (SpaceX Float)
       let (inner, r) ← pSpace r
       pure (.spacetime vmax tw true lo hi inner, r)
     | _ => none
-  | "projected" :: r => do let (s, r) ← pSpace r; pure (.constrained s, r)
-  | "atlas" :: r => do let (s, r) ← pSpace r; pure (.constrained s, r)
-  | "tangentbundle" :: r => do let (s, r) ← pSpace r; pure (.constrained s, r)
   | "cforest" :: r => do let (s, r) ← pSpaceX r; pure (.cforest s, r)
-  | r => do let (s, r) ← pSpace r; pure (.base s, r)
+  | k :: r =>
+    -- `projected|atlas|tangentbundle[:sphere|:plane|:torus] <ambient>`: whatever the constraint, distance / equalStates /
+    -- satisfiesBounds / extent are the ambient space's
+    if ["projected", "atlas", "tangentbundle"].contains ((k.splitOn ":").headD "") then do
+      let (s, r) ← pSpace r
+      pure (.constrained s, r)
+    else do
+      let (s, r) ← pSpace (k :: r)
+      pure (.base s, r)
+  | [] => none
 
 /-! ### histories: the space is changed after construction; the model is recomputed from the CURRENT bounds/weights -/
 
@@ -57,11 +91,44 @@ where
 
 def setBoundsF (lo hi : List Float) : Space Float → Option (Space Float)
   | .rv l _ => if l.length == lo.length && lo.length == hi.length then some (.rv lo hi) else none
+  | .disc _ _ =>
+    match lo, hi with
+    | [a], [b] => some (.disc a.toInt64.toInt b.toInt64.toInt)     -- `(int)lo`, `(int)hi`
+    | _, _ => none
+  -- SE2StateSpace::setBounds / SE3StateSpace::setBounds forward to the R^n component
+  | .ccons w (.rv l _) t => if l.length == lo.length && lo.length == hi.length then some (.ccons w (.rv lo hi) t) else none
   | .time _ _ _ =>
     match lo, hi with
     | [a], [b] => some (.time true a b)
     | _, _ => none
   | _ => none
+
+/-- `RealVectorStateSpace::addDimension(minBound, maxBound)` -/
+def addDimF (lo hi : Float) : Space Float → Option (Space Float)
+  | .rv l h => some (.rv (l ++ [lo]) (h ++ [hi]))
+  | _ => none
+
+def weightsOf : Space Float → List Float
+  | .ccons w _ t => w :: weightsOf t
+  | _ => []
+
+/-- the node at a path (for queries) -/
+partial def nodeAtX : List Nat → SpaceX Float → Option (Space Float)
+  | p, .base s => nodeAt p s
+  | 0 :: p, .constrained amb => nodeAt p amb
+  | 0 :: p, .cforest s => nodeAtX p s
+  | 0 :: p, .spacetime _ _ _ _ _ inner => nodeAt p inner
+  | [], .spacetime _ tw b lo hi inner => some (.ccons (1.0 - tw) inner (.ccons tw (.time b lo hi) .cnil))
+  | _, _ => none
+where
+  nodeAt : List Nat → Space Float → Option (Space Float)
+    | [], s => some s
+    | 0 :: p, .wrap s => nodeAt p s
+    | i :: p, s => (comp i s).bind (nodeAt p)
+  comp : Nat → Space Float → Option (Space Float)
+    | 0, .ccons _ h _ => some h
+    | i + 1, .ccons _ _ t => comp i t
+    | _, _ => none
 
 def setWeightF (idx : Nat) (w : Float) : Space Float → Option (Space Float)
   | .ccons w0 h t =>
@@ -88,11 +155,14 @@ def pPath : P (List Nat)
 
 def init (ts : List String) : Option St :=
   match ts with
-  | ["spacedist"] => some ⟨none⟩
+  | ["spacedist"] => some ⟨none, none⟩
   | "spacedist" :: rest =>
-    match pSpaceX rest with
-    | some (sp, []) => some ⟨some sp⟩
-    | _ => none
+    match pCar rest with
+    | some (c, []) => some ⟨none, some c⟩
+    | _ =>
+      match pSpaceX rest with
+      | some (sp, []) => some ⟨some sp, none⟩
+      | _ => none
   | _ => none
 
 def b2s (b : Bool) : String := if b then "1" else "0"
@@ -114,13 +184,57 @@ def optBits : Option Float → String
   | some x => floatBits x
   | none => floatBits inf
 
+/-- ops on a car-like space: `dist` (Dubins, Reeds-Shepp, Vana: recomputed), `distr <a> <b> rec <k> <x>*k` (Owen,
+VanaOwen: with the recorded answers of the real code), and the compound's `equal` / `inbounds` / `extent` / `claims` -/
+def stepCar (st : St) (c : CarSpace Float) (op : String) (rest : List String) : St × String :=
+  let sp := c.layout
+  let two (k : OmplModel.St Float → OmplModel.St Float → List String → String) : St × String :=
+    match pState sp rest with
+    | some (a, r) =>
+      match pState sp r with
+      | some (b, r) => if sp.wellTyped a && sp.wellTyped b then (st, k a b r) else (st, "bad-op")
+      | none => (st, "bad-op")
+    | none => (st, "bad-op")
+  let showD : Option Float → String
+    | some d => "d " ++ floatBits d
+    | none => "d none"
+  match op with
+  | "dist" => two fun a b r => if r.isEmpty then showD (carDist c a b []) else "bad-op"
+  | "distr" => two fun a b r =>
+    match r with
+    | "rec" :: r =>
+      match pNat r with
+      | some (k, r) =>
+        match pFloats k r with
+        | some (xs, []) => showD (carDist c a b xs)
+        | _ => "bad-op"
+      | none => "bad-op"
+    | _ => "bad-op"
+  | "equal" => two fun a b r => if r.isEmpty then "eq " ++ b2s (equalStates sp a b) else "bad-op"
+  | "inbounds" =>
+    match pState sp rest with
+    | some (a, []) => if sp.wellTyped a then (st, "in " ++ b2s (satisfiesBounds sp a)) else (st, "bad-op")
+    | _ => (st, "bad-op")
+  | "extent" => if rest.isEmpty then (st, "ext " ++ floatBits (carExtent c)) else (st, "bad-op")
+  | "claims" =>
+    let (m, sy) := carClaims c
+    if rest.isEmpty then (st, s!"claims metric={b2s m} symdist={b2s sy} syminterp={b2s sy} discrete=0") else (st, "bad-op")
+  | "setup" => if rest.isEmpty then (st, "ok") else (st, "bad-op")
+  | _ => (st, "bad-op")
+
 def step (st : St) (ts : List String) : St × String :=
   match ts with
   | "space" :: rest =>
-    match pSpaceX rest with
-    | some (sp, []) => (⟨some sp⟩, "ok")
-    | _ => (st, "bad-op")
+    match pCar rest with
+    | some (c, []) => (⟨none, some c⟩, "ok")
+    | _ =>
+      match pSpaceX rest with
+      | some (sp, []) => (⟨some sp, none⟩, "ok")
+      | _ => (st, "bad-op")
   | op :: rest =>
+    match st.car with
+    | some c => stepCar st c op rest
+    | none =>
     match st.sp with
     | none => (st, "bad-op")
     | some sx =>
@@ -157,12 +271,31 @@ def step (st : St) (ts : List String) : St × String :=
               match pFloats n r with
               | some (hi, []) =>
                 match modAtX (setBoundsF lo hi) path sx with
-                | some sx' => (⟨some sx'⟩, "ok")
+                | some sx' => (⟨some sx', none⟩, "ok")
                 | none => (st, "bad-op")
               | _ => (st, "bad-op")
             | none => (st, "bad-op")
           | none => (st, "bad-op")
         | none => (st, "bad-op")
+      | "adddim" =>
+        match pPath rest with
+        | some (path, r) =>
+          match pFloats 2 r with
+          | some ([lo, hi], []) =>
+            match modAtX (addDimF lo hi) path sx with
+            | some sx' => (⟨some sx', none⟩, "ok")
+            | none => (st, "bad-op")
+          | _ => (st, "bad-op")
+        | none => (st, "bad-op")
+      | "weights" =>
+        match pPath rest with
+        | some (path, []) =>
+          match nodeAtX path sx with
+          | some (.ccons w h t) =>
+            let ws := weightsOf (.ccons w h t)
+            (st, joinSp (["w", toString ws.length] ++ ws.map floatBits))
+          | _ => (st, "bad-op")
+        | _ => (st, "bad-op")
       | "setweight" | "setweightn" =>
         match pPath rest with
         | some (path, r) =>
@@ -171,7 +304,7 @@ def step (st : St) (ts : List String) : St × String :=
             match pFloat r with
             | some (w, []) =>
               match modAtX (setWeightF idx w) path sx with
-              | some sx' => (⟨some sx'⟩, "ok")
+              | some sx' => (⟨some sx', none⟩, "ok")
               | none => (st, "bad-op")
             | _ => (st, "bad-op")
           | none => (st, "bad-op")
